@@ -20,6 +20,9 @@ is registered in request_handlers; (b) every register_lazy(verb, module, class) 
 the repository, the class derives from SmartServerRequest and defines or inherits a do() method; (c) verbs are
 registered once; (d) each registration's info= flag is one of the documented kinds (read / idem / semi / semivfs /
 mutate / stream), which the retry logic of the client relies on.
+Added while testing against seeded changes: Also: RemoteBranch/RemoteRepository.lock_write (re)initialise _leave_lock
+on every outermost lock; RemoteStreamSink.insert_stream calls target_repo.refresh_data() before reporting a successful
+RPC insert.
 Does not decide: behavioural equivalence of remote and local operations (not applicable to static analysis).
 """
 VERB_RE = re.compile(rb"^(Branch|BzrDir|BzrDirFormat|Repository|PackRepository|Transport|VersionedFileRepository)\.[A-Za-z_0-9.]+$")
